@@ -1,6 +1,6 @@
 /* C06 D4/D5: overload selection - the real dispatch::dispatch<std::vector<Proxy_Function>> and the real
    Proxy_Function_Base::compare_type_to_param, over NF registered overloads of symbolic arity (-1 variadic, 1, 2), symbolic declared
-   parameter types and NA arguments of symbolic types from a universe {int, double, Boxed_Value, Boxed_Number, function object, class A,
+   parameter types (each plain or in a pointer/shared_ptr/reference_wrapper form: other full type, same bare type) and NA arguments of symbolic types from a universe {int, double, Boxed_Value, Boxed_Number, function object, class A,
    class B, undefined}.  Entering an overload (Proxy_Function_Base::operator(): arity check + typed casts + the C++ function) is an
    abstract step per overload: it returns a value, or refuses with bad_boxed_cast / arity_error / guard_error (nothing was entered), or
    throws something else.  Type_Conversions::converts is an oracle bit per (declared type, argument type) pair;
@@ -31,10 +31,13 @@ static struct verif_ti ti_int = {0, "*i"}, ti_double = {0, "*d"}, ti_A = {0, "*A
 struct TI { char* ti; char* bare; uint32_t flags; uint32_t pad_; };
 _Static_assert(sizeof(struct TI) == SZ_Type_Info && offsetof(struct TI, bare) == OFF_TI_bare_type_info && offsetof(struct TI, flags) == OFF_TI_flags, "Type_Info layout");
 static char* tobj(int t) { return t == T_INT ? (char*)&ti_int : t == T_DOUBLE ? (char*)&ti_double : t == T_BV ? TI_BOXED_VALUE_OBJ : t == T_BN ? TI_BOXED_NUMBER_OBJ : t == T_FUN ? TI_FUNCTION_OBJ : t == T_A ? (char*)&ti_A : t == T_B ? (char*)&ti_B : (char*)&ti_unknown; }
+/* a parameter declared as T*, const T*, shared_ptr<T>, reference_wrapper<T>: its full type is not T (own typeinfo object, pointer flag), its BARE type is T -
+   for overload selection it matches an argument of type T exactly */
+static struct verif_ti ti_wrap[NT] = { {0, "*w0"}, {0, "*w1"}, {0, "*w2"}, {0, "*w3"}, {0, "*w4"}, {0, "*w5"}, {0, "*w6"}, {0, "*w7"} };
 static void set_ti(struct TI* x, int t, int is_const) { x->ti = tobj(t); x->bare = tobj(t); x->flags = (t == T_UNDEF ? TIF_undef : 0) | ((t == T_INT || t == T_DOUBLE) ? TIF_arithmetic : 0) | (is_const ? TIF_const : 0); x->pad_ = 0; }
 struct PFB { char* vptr; struct vec3 types; int32_t arity; uint8_t has_arith; uint8_t pad_[3]; };
 _Static_assert(sizeof(struct PFB) == SZ_PFB && offsetof(struct PFB, types) == OFF_PFB_types && offsetof(struct PFB, arity) == OFF_PFB_arity, "Proxy_Function_Base layout");
-static struct PFB funcs[NF]; static struct TI ftypes[NF][3]; static int farity[NF], fptype[NF][2]; static int fbeh[NF];
+static struct PFB funcs[NF]; static struct TI ftypes[NF][3]; static int farity[NF], fptype[NF][2], fwrapped[NF][2]; static int fbeh[NF];
 enum { F_RET = 0, F_BADCAST, F_ARITY, F_GUARD, F_FOREIGN };
 static struct bv_data args_data[2]; static struct BV args[2]; static int atype[2];
 static uint8_t conv_bit[NT][NT];
@@ -69,7 +72,8 @@ int main(void) {
 #endif
     fbeh[k] = b;
     set_ti(&ftypes[k][0], T_UNDEF, 0);
-    for (int j = 0; j < 2; j++) { int t = nondet_i32(); __CPROVER_assume(t >= 0 && t < NT); fptype[k][j] = t; set_ti(&ftypes[k][1 + j], t, 0); }
+    for (int j = 0; j < 2; j++) { int t = nondet_i32(); __CPROVER_assume(t >= 0 && t < NT); fptype[k][j] = t; set_ti(&ftypes[k][1 + j], t, 0);
+      if ((nondet_u8() & 1) && t != T_UNDEF && t != T_BV && t != T_BN) { ftypes[k][1 + j].ti = (char*)&ti_wrap[t]; ftypes[k][1 + j].flags |= TIF_pointer; fwrapped[k][j] = 1; } }
     int ntypes = ar < 0 ? 1 : 1 + ar;
     funcs[k].types.b = (char*)&ftypes[k][0]; funcs[k].types.e = (char*)&ftypes[k][ntypes]; funcs[k].types.c = funcs[k].types.e; funcs[k].arity = ar;
     fptrs[k].p = (char*)&funcs[k]; fptrs[k].pn = 0;
@@ -101,6 +105,7 @@ int main(void) {
   else { __CPROVER_assert(n_fallback == 1, "C06: when every candidate refuses, the arithmetic-conversion fallback is entered exactly once");
          if (fb_throws) __CPROVER_assert(__exc_pending, "C06: no compatible overload is an error"); else __CPROVER_assert(!__exc_pending && out.p == (char*)&fb_result, "C06: the fallback's value is the result");
          __CPROVER_assert(0, "witness: fallback"); }
+  if (n_calls >= 1 && winner >= 0 && winner != 0 && fwrapped[winner][0] && fptype[winner][0] == atype[0] && (NA < 2 || fptype[winner][1] == atype[1])) __CPROVER_assert(0, "witness: exact match through a pointer/shared_ptr parameter preferred");
   if (n_calls >= 1 && winner >= 0 && winner != 0) __CPROVER_assert(0, "witness: exact match preferred");      /* a later-registered overload wins because it is closer to the argument types */
   return 0;
 }
